@@ -120,4 +120,35 @@ theorem lock_facts_cover_the_commands :
     80 ≤ lockFacts.length ∧ lockFacts.any (fun f => f.1 == "(dataStoreCommand).lmove") = true := by
   decide
 
+/-! ### locking several data stores (FLUSHALL, EXEC with FLUSHALL / SELECT): no deadlock -/
+
+/-- **No deadlock between threads that lock several data stores.** Under the discipline no two distinct threads
+    of a system can both be waiting for a data store the next one in a cycle holds — so there is no cycle of
+    waiting threads at all: take any two neighbours `a → b` of a cycle; somebody waits for `a` too. -/
+theorem no_deadlock_cycle (ts : List LockTh) (h : GateDiscipline ts) (i j : Nat) (hij : i < j)
+    (a b : LockTh) (ha : ts[i]? = some a) (hb : ts[j]? = some b)
+    (x y : LockTh)                       -- x waits for a, b waits for y: a and b are members of a cycle
+    (hxa : x.waitsFor a) (hab : a.waitsFor b) (hby : b.waitsFor y) : False := by
+  have hma := List.mem_of_getElem? ha
+  have hmb := List.mem_of_getElem? hb
+  obtain ⟨r1, _, hr1⟩ := hxa
+  obtain ⟨r2, hw2, hr2⟩ := hab
+  obtain ⟨r3, hw3, _⟩ := hby
+  have ga : a.gate = true := h.holdAndWait a hma (by simp [hw2]) (List.ne_nil_of_mem hr1)
+  have gb : b.gate = true := h.holdAndWait b hmb (by simp [hw3]) (List.ne_nil_of_mem hr2)
+  have := List.pairwise_iff_getElem.mp h.oneGate i j
+    (by have := (List.getElem?_eq_some_iff.mp ha).1; exact this)
+    (by have := (List.getElem?_eq_some_iff.mp hb).1; exact this) hij
+  have ea : ts[i]'((List.getElem?_eq_some_iff.mp ha).1) = a := (List.getElem?_eq_some_iff.mp ha).2
+  have eb : ts[j]'((List.getElem?_eq_some_iff.mp hb).1) = b := (List.getElem?_eq_some_iff.mp hb).2
+  rw [ea, eb] at this
+  exact this ⟨ga, gb⟩
+
+/-- the history of D91 does not satisfy the discipline: the EXEC (data store 1 held, waiting for 0) has no gate -/
+theorem d91_breaks_the_discipline :
+    ¬ GateDiscipline [{ held := [1], waits := some 0, gate := false }, { held := [0], waits := some 1, gate := true }] := by
+  intro h
+  have := h.holdAndWait { held := [1], waits := some 0, gate := false } (by simp) (by simp) (by simp)
+  simp at this
+
 end RedisEmu
